@@ -36,3 +36,15 @@ def engine_deductive(rep, targets, heap_lemmas=True, term_lemmas=False):
     rep.trusted += [A['SOLVERS'], 'spec/terms.smt2 + spec/heap.smt2 (heap model, asserted/sfilter/sremove/fresh_copy specifications)',
                     'meta-lemma (paper, DESIGN 5/C03): a generator that never writes a variable cell itself, owns its iterators and '
                     'has finalised all of them on every exit restores the binding store']
+
+
+TOPY_FUNS = ['engine.to_python', 'engine.Atom.to_python', 'engine.Variable.to_python', 'engine.Functor.to_python']
+
+
+def topython_deductive(rep):
+    """to_python family against topy(resolve(t)) on proper lists (C15, C16)"""
+    from ..pyvc.theory_pyval import PyvalTheory
+    fw.deductive(rep, TOPY_FUNS, ['engine_terms'], ['terms.smt2', 'pyval.smt2'], theory=PyvalTheory)
+    fw.add_smt(rep, lemmas.prove_pyval_lemmas(), 'spec.pyval-lemmas')
+    rep.lemmas.append('L-RES-RES / L-RES-FIX / L-RESL (resolve returns a resolved term, resolved terms are fixed points, resolvel is pointwise), '
+                      'L-WFL-NTH: proved by induction (SMT)')
